@@ -573,6 +573,7 @@ func runC08(ctx *core.Ctx) {
 	}
 	// ---- F9 coordinate discipline
 	c08Coordinates(ctx, d, xs, ys)
+	c08Round6(ctx, d, xs, ys)
 	// ---- F10: the anchor search sees the whole of both line tables; the line splitter drops only a truly empty tail
 	ctx.Rule("F10", "whole tables: the anchor search (the function returning the matching pairs) receives the complete line tables of old and new, in that order; the trailing sentinel it returns is then (len(old lines), len(new lines)) - on trimmed tables the sentinel falls short of the end and the last hunk may never be flushed", 1)
 	ctx.Rule("F11", "the line splitter removes the last element of the split only when that element is the empty string itself (text ended in a newline); anything else after the last newline - blanks included - is a line", 1)
